@@ -80,6 +80,8 @@ def gen_assigns(rng, small):
             s = int(rng.choice(ns, p=P[s]))
             t.append(s)
         trajs.append(np.array(t))
+    dt = [np.int64, np.int64, np.int32, np.int16][int(rng.integers(0, 4))]
+    trajs = [t.astype(dt) for t in trajs]
     return trajs, ns
 
 
